@@ -125,27 +125,6 @@ theorem not_covers_self (s : RS) (a : Nat) (h : covers s a a = false) : ¬ mem a
     exact ⟨p, hp, ⟨h1, by omega⟩, h2⟩
   rw [h] at this; cases this
 
-theorem wfb_WF (s : RS) (h : wfb s = true) : WF s := by
-  induction s with
-  | nil => exact WF_nil
-  | cons p t ih =>
-    obtain ⟨a, b⟩ := p
-    cases t with
-    | nil =>
-      simp only [wfb, decide_eq_true_eq] at h
-      exact WF.cons h (by simp) WF_nil
-    | cons q t' =>
-      obtain ⟨c, d⟩ := q
-      simp only [wfb, Bool.and_eq_true, decide_eq_true_eq] at h
-      have hw := ih h.2
-      refine WF.cons h.1.1 ?_ hw
-      intro r hr
-      rcases List.mem_cons.mp hr with e | e
-      · subst e; exact h.1.2
-      · have := hw.head_sep r e
-        have := hw.head_lt
-        simp only at *; omega
-
 theorem clipFrom_mem (s : RS) (r x : Nat) : mem x (clipFrom s r) ↔ mem x s ∧ r ≤ x := by
   unfold mem clipFrom
   constructor
@@ -161,42 +140,32 @@ theorem clipFrom_mem (s : RS) (r x : Nat) : mem x (clipFrom s r) ↔ mem x s ∧
     · rw [if_pos (by omega)]
     · simp only [Nat.max_def]; split <;> omega
 
-theorem clipBelow_mem (s : RS) (r x : Nat) : mem x (clipBelow s r) ↔ mem x s ∧ x < r := by
-  unfold mem clipBelow
-  constructor
-  · rintro ⟨q, hq, h1, h2⟩
-    obtain ⟨p, hp, hpq⟩ := List.mem_filterMap.mp hq
-    split at hpq
-    · cases hpq
-      simp only [Nat.min_def] at h1 h2
-      refine ⟨⟨p, hp, h1, ?_⟩, ?_⟩ <;> (split at h2 <;> omega)
-    · cases hpq
-  · rintro ⟨⟨p, hp, h1, h2⟩, h3⟩
-    refine ⟨(p.1, Nat.min p.2 r), List.mem_filterMap.mpr ⟨p, hp, ?_⟩, h1, ?_⟩
-    · rw [if_pos (by omega)]
-    · simp only [Nat.min_def]; split <;> omega
+theorem clipFrom_lower (s : RS) (r lb : Nat) (h : ∀ p ∈ s, lb < p.1) : ∀ p ∈ clipFrom s r, lb < p.1 := by
+  intro q hq
+  obtain ⟨p, hp, hpq⟩ := List.mem_filterMap.mp hq
+  split at hpq
+  · cases hpq
+    have := h p hp
+    simp only [Nat.max_def]; split <;> omega
+  · cases hpq
 
-/-- what a validated ordered read may do to the coverage -/
-theorem staleOk_spec (c c' : RS) (r : Nat) (h : staleOk c c' r = true) :
-    WF c' ∧ (∀ x, r ≤ x → (mem x c' ↔ mem x c)) ∧ (∀ x, mem x c' → mem x c) := by
-  simp only [staleOk, Bool.and_eq_true, beq_iff_eq, List.all_eq_true, List.any_eq_true,
-    decide_eq_true_eq] at h
-  obtain ⟨⟨h1, h2⟩, h3⟩ := h
-  have hge : ∀ x, r ≤ x → (mem x c' ↔ mem x c) := by
-    intro x hx
-    have e1 := clipFrom_mem c' r x
-    have e2 := clipFrom_mem c r x
-    rw [h2] at e1
-    constructor
-    · intro hm; exact (e2.mp (e1.mpr ⟨hm, hx⟩)).1
-    · intro hm; exact (e1.mp (e2.mpr ⟨hm, hx⟩)).1
-  refine ⟨wfb_WF c' h1, hge, ?_⟩
-  intro x hm
-  by_cases hx : r ≤ x
-  · exact (hge x hx).mp hm
-  · obtain ⟨q, hq, hq1, hq2⟩ := (clipBelow_mem c' r x).mpr ⟨hm, by omega⟩
-    obtain ⟨p, hp, hp1, hp2⟩ := h3 q hq
-    exact ⟨p, hp, by omega, by omega⟩
+theorem clipFrom_WF (s : RS) (r : Nat) (hw : WF s) : WF (clipFrom s r) := by
+  induction s with
+  | nil => exact WF_nil
+  | cons q t ih =>
+    obtain ⟨a, b⟩ := q
+    have hab : a < b := hw.head_lt
+    have hsep := hw.head_sep
+    have iht := ih hw.tail
+    have hlow : ∀ p ∈ clipFrom t r, b < p.1 := clipFrom_lower t r b hsep
+    by_cases h : b > r
+    · have e : clipFrom ((a, b) :: t) r = (Nat.max a r, b) :: clipFrom t r := by
+        simp only [clipFrom, List.filterMap_cons, if_pos h]
+      rw [e]
+      exact WF.cons (by simp only [Nat.max_def]; split <;> omega) hlow iht
+    · have e : clipFrom ((a, b) :: t) r = clipFrom t r := by
+        simp only [clipFrom, List.filterMap_cons, if_neg h]
+      rw [e]; exact iht
 
 theorem removeRange_mem (s : RS) (a b x : Nat) :
     mem x (removeRange s a b) ↔ mem x s ∧ ¬ (a ≤ x ∧ x < b) := by
@@ -336,7 +305,7 @@ def Sys.init : Sys := ⟨{}, [], [], []⟩
 
 inductive Op where
   | insert (off : Nat) (bytes : Bytes) (alloc : Nat) (tooMany : Bool)
-  | read (max : Nat) (ordered : Bool) (obs : Obs) (obsCov : RS)
+  | read (max : Nat) (ordered : Bool) (obs : Obs)
   | ensure (ordered : Bool)
   | clear
 
@@ -354,11 +323,11 @@ def step (s : Sys) : Op → Option Sys
     | (a', .tooMany) => some { s with a := a', ins := if s.a.unordered then s.ins else (off, off + bytes.length) :: s.ins }
     | (_, .panic) => none
     | (_, .invalid) => none
-  | .read max ordered obs c =>
+  | .read max ordered obs =>
     match ensureOrdering s.a ordered with
     | (a1, false) => some { s with a := a1 }
     | (a1, true) =>
-      match read a1 max ordered obs c with
+      match read a1 max ordered obs with
       | (a2, .none) => some { s with a := a2 }
       | (a2, .chunk off bytes) =>
         some { s with a := a2, out := if ordered then s.out ++ bytes else s.out,
@@ -490,25 +459,38 @@ theorem insert_inv (g : Nat → Nat) (s : Asm) (off : Nat) (bytes : Bytes) (allo
   · split
     · exact ⟨hc, hw, rfl, rfl⟩
     · split
-      · split
-        · exact ⟨hc, hw, rfl, rfl⟩
-        · rename_i s1 off1 bytes1 hd
-          have h1 := dupLoop_inv g _ _ off bytes s1 off1 bytes1 (by exact hc) (by exact hw) hb hd
-          have h2 := finishInsert_inv g s1 off1 bytes1 tm h1.1 h1.2.1 h1.2.2.1
-          exact ⟨h2.1, h2.2.1, by rw [h2.2.2.1, h1.2.2.2.1], by rw [h2.2.2.2.1, h1.2.2.2.2.1]⟩
+      · exact ⟨hc, hw, rfl, rfl⟩
       · split
         · split
           · exact ⟨hc, hw, rfl, rfl⟩
-          · rename_i hlt hnle
-            have hb1 := drop_stream g off bytes (s.bytesRead - off) hb
-            have e : off + (s.bytesRead - off) = s.bytesRead := by omega
-            rw [e] at hb1
-            have h2 := finishInsert_inv g { s with end_ := Nat.max s.end_ (off + bytes.length) }
-              s.bytesRead _ tm hc hw hb1
+          · rename_i s1 off1 bytes1 hd
+            have h1 := dupLoop_inv g _ _ off bytes s1 off1 bytes1 (by exact hc) (by exact hw) hb hd
+            have h2 := finishInsert_inv g s1 off1 bytes1 tm h1.1 h1.2.1 h1.2.2.1
+            exact ⟨h2.1, h2.2.1, by rw [h2.2.2.1, h1.2.2.2.1], by rw [h2.2.2.2.1, h1.2.2.2.2.1]⟩
+        · split
+          · split
+            · exact ⟨hc, hw, rfl, rfl⟩
+            · rename_i hlt hnle
+              have hb1 := drop_stream g off bytes (s.bytesRead - off) hb
+              have e : off + (s.bytesRead - off) = s.bytesRead := by omega
+              rw [e] at hb1
+              have h2 := finishInsert_inv g { s with end_ := Nat.max s.end_ (off + bytes.length) }
+                s.bytesRead _ tm hc hw hb1
+              exact ⟨h2.1, h2.2.1, h2.2.2.1, h2.2.2.2.1⟩
+          · have h2 := finishInsert_inv g { s with end_ := Nat.max s.end_ (off + bytes.length) }
+              off bytes tm hc hw hb
             exact ⟨h2.1, h2.2.1, h2.2.2.1, h2.2.2.2.1⟩
-        · have h2 := finishInsert_inv g { s with end_ := Nat.max s.end_ (off + bytes.length) }
-            off bytes tm hc hw hb
-          exact ⟨h2.1, h2.2.1, h2.2.2.1, h2.2.2.2.1⟩
+
+/-- an empty frame changes nothing but `end` (it returns before `recvd` is touched) -/
+theorem insert_empty_frame (s : Asm) (off alloc : Nat) (tm : Bool) :
+    (insert s off [] alloc tm).1.recvd = s.recvd ∧ (insert s off [] alloc tm).1.cov = s.cov ∧
+    (insert s off [] alloc tm).1.data = s.data := by
+  unfold insert
+  split
+  · exact ⟨rfl, rfl, rfl⟩
+  · split
+    · exact ⟨rfl, rfl, rfl⟩
+    · simp
 
 /-- `insert` in ordered mode adds exactly the part of the frame at or after the read index -/
 theorem insert_ordered_cov (g : Nat → Nat) (s : Asm) (off : Nat) (bytes : Bytes) (alloc : Nat) (tm : Bool)
@@ -526,65 +508,83 @@ theorem insert_ordered_cov (g : Nat → Nat) (s : Asm) (off : Nat) (bytes : Byte
     · rename_i h; rw [if_pos h] at hok; simp at hok
     · rename_i h2
       rw [if_neg h2] at hok
-      have hf : ¬ (s.unordered = true) := by rw [ho]; simp
-      rw [if_neg hf]
       split
-      · split
-        · rename_i hlt hle
-          intro x
-          constructor
-          · exact Or.inl
-          · rintro (h | h)
-            · exact h
-            · omega
-        · rename_i hlt hnle
-          have hb1 := drop_stream g off bytes (s.bytesRead - off) hb
-          have e : off + (s.bytesRead - off) = s.bytesRead := by omega
-          rw [e] at hb1
-          have h3 := (finishInsert_inv g { s with end_ := Nat.max s.end_ (off + bytes.length) }
-            s.bytesRead _ tm hc hw hb1).2.2.2.2
-          intro x
-          rw [h3 x, List.length_drop]
-          constructor
-          · rintro (h | h)
-            · exact Or.inl h
-            · right; omega
-          · rintro (h | h)
-            · exact Or.inl h
-            · right; omega
-      · rename_i hnlt
-        have h3 := (finishInsert_inv g { s with end_ := Nat.max s.end_ (off + bytes.length) }
-          off bytes tm hc hw hb).2.2.2.2
+      · rename_i he
+        have : bytes.length = 0 := by
+          cases bytes with
+          | nil => rfl
+          | cons _ _ => simp at he
         intro x
-        rw [h3 x]
         constructor
+        · exact Or.inl
         · rintro (h | h)
-          · exact Or.inl h
-          · right; omega
-        · rintro (h | h)
-          · exact Or.inl h
-          · right; omega
+          · exact h
+          · omega
+      · have hf : ¬ (s.unordered = true) := by rw [ho]; simp
+        rw [if_neg hf]
+        split
+        · split
+          · rename_i hlt hle
+            intro x
+            constructor
+            · exact Or.inl
+            · rintro (h | h)
+              · exact h
+              · omega
+          · rename_i hlt hnle
+            have hb1 := drop_stream g off bytes (s.bytesRead - off) hb
+            have e : off + (s.bytesRead - off) = s.bytesRead := by omega
+            rw [e] at hb1
+            have h3 := (finishInsert_inv g { s with end_ := Nat.max s.end_ (off + bytes.length) }
+              s.bytesRead _ tm hc hw hb1).2.2.2.2
+            intro x
+            rw [h3 x, List.length_drop]
+            constructor
+            · rintro (h | h)
+              · exact Or.inl h
+              · right; omega
+            · rintro (h | h)
+              · exact Or.inl h
+              · right; omega
+        · rename_i hnlt
+          have h3 := (finishInsert_inv g { s with end_ := Nat.max s.end_ (off + bytes.length) }
+            off bytes tm hc hw hb).2.2.2.2
+          intro x
+          rw [h3 x]
+          constructor
+          · rintro (h | h)
+            · exact Or.inl h
+            · right; omega
+          · rintro (h | h)
+            · exact Or.inl h
+            · right; omega
 
 /-! ### `ensure_ordering` and `read` -/
 
-theorem ensure_spec (a : Asm) (ordered : Bool) :
-    (ensureOrdering a ordered).1.data = a.data ∧ (ensureOrdering a ordered).1.cov = a.cov ∧
+theorem ensure_spec (a : Asm) (ordered : Bool) (hw : WF a.cov) :
+    (ensureOrdering a ordered).1.data = a.data ∧ WF (ensureOrdering a ordered).1.cov ∧
+    (∀ x, mem x (ensureOrdering a ordered).1.cov → mem x a.cov) ∧
+    (∀ x, a.bytesRead ≤ x → (mem x (ensureOrdering a ordered).1.cov ↔ mem x a.cov)) ∧
     (ensureOrdering a ordered).1.bytesRead = a.bytesRead ∧
     ((ensureOrdering a ordered).2 = true → (ensureOrdering a ordered).1.unordered = !ordered) ∧
     ((ensureOrdering a ordered).2 = false →
       (ensureOrdering a ordered).1 = a ∧ a.unordered = true ∧ ordered = true) ∧
     (a.unordered = true → (ensureOrdering a ordered).1 = a) := by
+  have hclip : ∀ x, mem x (clipFrom a.cov a.bytesRead) → mem x a.cov :=
+    fun x hx => ((clipFrom_mem a.cov a.bytesRead x).mp hx).1
+  have hclip2 : ∀ x, a.bytesRead ≤ x → (mem x (clipFrom a.cov a.bytesRead) ↔ mem x a.cov) :=
+    fun x hx => ⟨hclip x, fun h => (clipFrom_mem a.cov a.bytesRead x).mpr ⟨h, hx⟩⟩
+  have hcw := clipFrom_WF a.cov a.bytesRead hw
   unfold ensureOrdering
-  cases ordered <;> cases hu : a.unordered <;> simp [hu]
+  cases ordered <;> cases hu : a.unordered <;> simp [hu, hw] <;> exact ⟨hcw, hclip, hclip2⟩
 
 /-- a validated ordered read -/
-theorem read_ordered_spec (g : Nat → Nat) (a a2 : Asm) (max : Nat) (obs : Obs) (c : RS) (ro : ReadOut)
-    (h : read a max true obs c = (a2, ro)) (hc : Cons g a.data) :
+theorem read_ordered_spec (g : Nat → Nat) (a a2 : Asm) (max : Nat) (obs : Obs) (ro : ReadOut)
+    (h : read a max true obs = (a2, ro)) (hc : Cons g a.data) (hw : WF a.cov) :
     a2.data = a.data ∧ a2.unordered = a.unordered ∧ a2.recvd = a.recvd ∧
     match ro with
     | .invalid => True
-    | .none => a2.bytesRead = a.bytesRead ∧ ¬ mem a.bytesRead a.cov ∧
-        WF a2.cov ∧ (∀ x, a.bytesRead ≤ x → (mem x a2.cov ↔ mem x a.cov)) ∧ (∀ x, mem x a2.cov → mem x a.cov)
+    | .none => a2 = a ∧ ¬ mem a.bytesRead a.cov
     | .chunk off bytes => off = a.bytesRead ∧ a2.bytesRead = a.bytesRead + bytes.length ∧
         bytes = stream g off bytes.length ∧ bytes.length ≤ max ∧
         (∀ x, off ≤ x → x < off + bytes.length → mem x a.cov) ∧
@@ -596,12 +596,8 @@ theorem read_ordered_spec (g : Nat → Nat) (a a2 : Asm) (max : Nat) (obs : Obs)
     split at h
     · cases h; exact ⟨rfl, rfl, rfl, trivial⟩
     · rename_i hcov
-      split at h
-      · rename_i hst
-        cases h
-        have := staleOk_spec a.cov c a.bytesRead hst
-        refine ⟨rfl, rfl, rfl, rfl, not_covers_self a.cov a.bytesRead (by simpa using hcov), this.1, this.2.1, this.2.2⟩
-      · cases h; exact ⟨rfl, rfl, rfl, trivial⟩
+      cases h
+      exact ⟨rfl, rfl, rfl, rfl, not_covers_self a.cov a.bytesRead (by simpa using hcov)⟩
   | chunk off len =>
     simp only at h
     split at h
@@ -614,25 +610,26 @@ theorem read_ordered_spec (g : Nat → Nat) (a a2 : Asm) (max : Nat) (obs : Obs)
         split at h
         · cases h; exact ⟨rfl, rfl, rfl, trivial⟩
         · rename_i hoff
-          split at h
-          · rename_i hst
-            cases h
-            have hbs := readBytes_cons g a.data hc len off bytes hrb
-            have hlen : bytes.length = len := by rw [hbs, stream_length]
-            have hst' := staleOk_spec a.cov c (a.bytesRead + len) hst
-            have hcv : covers a.cov off (off + len) = true := by
-              cases hcc : covers a.cov off (off + len) with
-              | true => rfl
-              | false => exfalso; apply hv; right; right; simp [hcc]
-            have hmax : ¬ len > max := fun hh => hv (Or.inl hh)
-            refine ⟨rfl, rfl, rfl, by omega, by simp only [hlen], by rw [hlen]; exact hbs, by omega, ?_, hst'.1, ?_, hst'.2.2⟩
-            · rw [hlen]; exact covers_mem a.cov off (off + len) hcv
-            · exact hst'.2.1
-          · cases h; exact ⟨rfl, rfl, rfl, trivial⟩
+          cases h
+          have hbs := readBytes_cons g a.data hc len off bytes hrb
+          have hlen : bytes.length = len := by rw [hbs, stream_length]
+          have hcv : covers a.cov off (off + len) = true := by
+            cases hcc : covers a.cov off (off + len) with
+            | true => rfl
+            | false => exfalso; apply hv; right; right; simp [hcc]
+          have hmax : ¬ len > max := fun hh => hv (Or.inl hh)
+          refine ⟨rfl, rfl, rfl, by omega, by simp only [hlen], by rw [hlen]; exact hbs, by omega, ?_,
+            clipFrom_WF _ _ hw, ?_, ?_⟩
+          · rw [hlen]; exact covers_mem a.cov off (off + len) hcv
+          · intro x hx
+            constructor
+            · intro hm; exact ((clipFrom_mem _ _ x).mp hm).1
+            · intro hm; exact (clipFrom_mem _ _ x).mpr ⟨hm, hx⟩
+          · intro x hm; exact ((clipFrom_mem _ _ x).mp hm).1
 
 /-- a validated unordered read -/
-theorem read_unordered_spec (g : Nat → Nat) (a a2 : Asm) (max : Nat) (obs : Obs) (c : RS) (ro : ReadOut)
-    (h : read a max false obs c = (a2, ro)) (hc : Cons g a.data) :
+theorem read_unordered_spec (g : Nat → Nat) (a a2 : Asm) (max : Nat) (obs : Obs) (ro : ReadOut)
+    (h : read a max false obs = (a2, ro)) (hc : Cons g a.data) :
     a2.data = a.data ∧ a2.unordered = a.unordered ∧ a2.recvd = a.recvd ∧
     match ro with
     | .invalid => True
@@ -693,26 +690,24 @@ theorem clear_invO (g : Nat → Nat) (s : Sys) (h : InvO g s) : InvO g { s with 
 
 theorem ensure_invO (g : Nat → Nat) (s : Sys) (h : InvO g s) (ordered : Bool) :
     InvO g { s with a := (ensureOrdering s.a ordered).1 } := by
-  obtain ⟨e1, e2, e3, e4, e5, e6⟩ := ensure_spec s.a ordered
-  refine ⟨by rw [show ({ s with a := (ensureOrdering s.a ordered).1 } : Sys).a = (ensureOrdering s.a ordered).1 from rfl, e1]; exact h.cons,
-    by show WF (ensureOrdering s.a ordered).1.cov; rw [e2]; exact h.wfc, h.content, h.out_eq, ?_, ?_⟩
-  · intro hu
-    show s.out.length = (ensureOrdering s.a ordered).1.bytesRead
-    rw [e3]
-    apply h.out_len
+  obtain ⟨e1, e2, e3, e4, e5, e6, e7, e8⟩ := ensure_spec s.a ordered h.wfc
+  have hmode : (ensureOrdering s.a ordered).1.unordered = false → s.a.unordered = false := by
+    intro hu
     cases hs : s.a.unordered with
     | false => rfl
-    | true => rw [e6 hs] at hu; rw [hs] at hu; cases hu
+    | true => rw [e8 hs] at hu; rw [hs] at hu; cases hu
+  refine ⟨by show Cons g (ensureOrdering s.a ordered).1.data; rw [e1]; exact h.cons, e2, h.content, h.out_eq, ?_, ?_⟩
+  · intro hu
+    show s.out.length = (ensureOrdering s.a ordered).1.bytesRead
+    rw [e5]
+    exact h.out_len (hmode hu)
   · intro hu x hx hr
+    have hr' : s.a.bytesRead ≤ x := by
+      have : (ensureOrdering s.a ordered).1.bytesRead ≤ x := hr
+      rw [e5] at this; exact this
     show mem x (ensureOrdering s.a ordered).1.cov
-    rw [e2]
-    have hs : s.a.unordered = false := by
-      cases hs : s.a.unordered with
-      | false => rfl
-      | true => rw [e6 hs] at hu; rw [hs] at hu; cases hu
-    apply h.noloss hs x hx
-    have : (ensureOrdering s.a ordered).1.bytesRead ≤ x := hr
-    rw [e3] at this; exact this
+    rw [e4 x hr']
+    exact h.noloss (hmode hu) x hx hr'
 
 theorem step_invO (g : Nat → Nat) (s s' : Sys) (op : Op) (h : InvO g s) (hop : op.consistent g)
     (hs : step s op = some s') : InvO g s' := by
@@ -752,10 +747,10 @@ theorem step_invO (g : Nat → Nat) (s s' : Sys) (op : Op) (h : InvO g s) (hop :
     · rename_i a' hins; cases hs; exact key a' (Or.inr hins)
     · cases hs
     · cases hs
-  | read max ordered obs c =>
+  | read max ordered obs =>
     simp only [step] at hs
     have he := ensure_invO g s h ordered
-    obtain ⟨e1, e2, e3, e4, e5, e6⟩ := ensure_spec s.a ordered
+    obtain ⟨e1, e2, e3, e4, e5, e6, e7, e8⟩ := ensure_spec s.a ordered h.wfc
     split at hs
     · rename_i a1 hens
       cases hs
@@ -764,7 +759,7 @@ theorem step_invO (g : Nat → Nat) (s s' : Sys) (op : Op) (h : InvO g s) (hop :
     · rename_i a1 hens
       have ha1 : a1 = (ensureOrdering s.a ordered).1 := by rw [hens]
       have hb : (ensureOrdering s.a ordered).2 = true := by rw [hens]
-      have hmode := e4 hb
+      have hmode := e6 hb
       subst ha1
       cases ordered with
       | true =>
@@ -772,19 +767,12 @@ theorem step_invO (g : Nat → Nat) (s s' : Sys) (op : Op) (h : InvO g s) (hop :
         split at hs
         · rename_i a2 hrd
           cases hs
-          have sp := read_ordered_spec g _ a2 max obs c .none hrd he.cons
-          obtain ⟨d1, d2, d3, d4, d5, d6, d7, d8⟩ := sp
-          refine ⟨by show Cons g a2.data; rw [d1]; exact he.cons, d6, h.content, h.out_eq, ?_, ?_⟩
-          · intro _; show s.out.length = a2.bytesRead; rw [d4]; exact he.out_len hmode
-          · intro _ x hx hr
-            have hr' : (ensureOrdering s.a true).1.bytesRead ≤ x := by
-              have : a2.bytesRead ≤ x := hr
-              rw [d4] at this; exact this
-            show mem x a2.cov
-            rw [d7 x hr']; exact he.noloss hmode x hx hr'
+          have sp := read_ordered_spec g _ a2 max obs .none hrd he.cons he.wfc
+          obtain ⟨d1, d2, d3, d4, d5⟩ := sp
+          subst d4; exact he
         · rename_i a2 off bytes hrd
           cases hs
-          have sp := read_ordered_spec g _ a2 max obs c (.chunk off bytes) hrd he.cons
+          have sp := read_ordered_spec g _ a2 max obs (.chunk off bytes) hrd he.cons he.wfc
           obtain ⟨d1, d2, d3, d4, d5, d6, d7, d8, d9, d10, d11⟩ := sp
           have hol := he.out_len hmode
           have hol' : s.out.length = (ensureOrdering s.a true).1.bytesRead := hol
@@ -813,12 +801,12 @@ theorem step_invO (g : Nat → Nat) (s s' : Sys) (op : Op) (h : InvO g s) (hop :
         split at hs
         · rename_i a2 hrd
           cases hs
-          have sp := read_unordered_spec g _ a2 max obs c .none hrd he.cons
+          have sp := read_unordered_spec g _ a2 max obs .none hrd he.cons
           obtain ⟨d1, d2, d3, d4, d5⟩ := sp
           subst d4; exact he
         · rename_i a2 off bytes hrd
           cases hs
-          have sp := read_unordered_spec g _ a2 max obs c (.chunk off bytes) hrd he.cons
+          have sp := read_unordered_spec g _ a2 max obs (.chunk off bytes) hrd he.cons
           obtain ⟨d1, d2, d3, d4, d5, d6, d7, d8⟩ := sp
           have hu2 : a2.unordered = true := by rw [d2]; exact hmode
           refine ⟨by show Cons g a2.data; rw [d1]; exact he.cons,
@@ -946,7 +934,12 @@ theorem insert_unordered_spec (g : Nat → Nat) (a : Asm) (off : Nat) (bytes : B
     split
     · rename_i h; rw [if_pos h] at hok; simp at hok
     · rename_i h2
-      rw [if_neg h2, if_pos hu] at hok
+      have hie : ¬ (bytes.isEmpty = true) := by
+        cases bytes with
+        | nil => exact absurd rfl hne
+        | cons _ _ => simp
+      rw [if_neg h2, if_neg hie, if_pos hu] at hok
+      rw [if_neg hie]
       have hd := replace_dups a.recvd off (off + bytes.length) hwr hlt
       obtain ⟨a1, off1, bytes1, e1, e2, e3, e4, e5, e6⟩ :=
         dupLoop_cov a.recvd (RangeSet.replace a.recvd off (off + bytes.length)).1
@@ -1000,45 +993,7 @@ theorem insert_unordered_spec (g : Nat → Nat) (a : Asm) (off : Nat) (bytes : B
             · exact Or.inl (Or.inr ⟨hx1, hxo, hx3⟩)
             · exact Or.inr ⟨by omega, hx2⟩
 
-/-- an empty frame inside or right after a received range changes neither `recvd` nor the buffer -/
-theorem insert_unordered_empty (a : Asm) (off alloc : Nat) (tm : Bool) (hu : a.unordered = true)
-    (hwr : WF a.recvd) (p : Nat × Nat) (hp : pred a.recvd off = some p) (hge : p.2 ≥ off) :
-    (insert a off [] alloc tm).1.recvd = a.recvd ∧ (insert a off [] alloc tm).1.cov = a.cov := by
-  obtain ⟨ps, pe⟩ := p
-  have hr := replace_empty_inside a.recvd off ps pe hwr hp hge
-  unfold insert
-  simp only [List.length_nil, Nat.add_zero]
-  split
-  · exact ⟨rfl, rfl⟩
-  · split
-    · exact ⟨rfl, rfl⟩
-    · rw [hr]
-      simp [dupLoop, finishInsert]
-
 /-! ### exactly once: no offset is handed to the application twice -/
-
-/-- the two situations in which the code re-delivers data (findings A1, A2) are excluded:
-    unordered mode is entered only when no buffered chunk starts below the read index, and in
-    unordered mode an empty frame is inserted only inside or right after a received range (where
-    `RangeSet::replace` does not create an empty entry) -/
-def goodb (s : Sys) : Op → Bool
-  | .insert off bytes _ _ => !s.a.unordered || !bytes.isEmpty ||
-      (match pred s.a.recvd off with
-       | some p => decide (p.2 ≥ off)
-       | none => false)
-  | .read _ ordered _ _ => ordered || s.a.unordered || s.a.cov.all (fun p => decide (s.a.bytesRead ≤ p.1))
-  | .ensure ordered => ordered || s.a.unordered || s.a.cov.all (fun p => decide (s.a.bytesRead ≤ p.1))
-  | .clear => true
-
-/-- runs that respect `goodb` -/
-def runG : Sys → List Op → Option Sys
-  | s, [] => some s
-  | s, op :: ops =>
-    if goodb s op then
-      match step s op with
-      | some s' => runG s' ops
-      | none => none
-    else none
 
 /-- ranges handed to the application so far -/
 def delivered (s : Sys) : List (Nat × Nat) := s.chunks.map rangeOf
@@ -1059,16 +1014,18 @@ theorem ensure_true (a : Asm) : (ensureOrdering a true).1 = a := by
   unfold ensureOrdering
   cases a.unordered <;> simp
 
-/-- entering unordered mode: `recvd` = everything read so far plus everything buffered -/
+/-- entering unordered mode: only offsets at or after the read index stay buffered (`defragment`
+    starts at `bytes_read`), `recvd` = everything read so far plus everything still buffered -/
 theorem ensure_switch (a : Asm) (hu : a.unordered = false) (hw : WF a.cov) :
     (ensureOrdering a false).1.unordered = true ∧ WF (ensureOrdering a false).1.recvd ∧
-    (∀ x, mem x (ensureOrdering a false).1.recvd ↔ x < a.bytesRead ∨ mem x a.cov) := by
+    (∀ x, mem x (ensureOrdering a false).1.recvd ↔ x < a.bytesRead ∨ mem x (clipFrom a.cov a.bytesRead)) ∧
+    (ensureOrdering a false).1.cov = clipFrom a.cov a.bytesRead := by
   unfold ensureOrdering
   simp only [Bool.false_and, Bool.false_eq_true, if_false, Bool.not_false, Bool.true_and, hu, Bool.not_false,
     if_true]
   have h0 := insert_WF [] 0 a.bytesRead WF_nil
-  have hf := fold_insert a.cov (RangeSet.insert [] 0 a.bytesRead).1 h0
-  refine ⟨trivial, hf.1, ?_⟩
+  have hf := fold_insert (clipFrom a.cov a.bytesRead) (RangeSet.insert [] 0 a.bytesRead).1 h0
+  refine ⟨trivial, hf.1, ?_, trivial⟩
   intro x
   rw [hf.2 x, insert_mem [] 0 a.bytesRead x WF_nil]
   constructor
@@ -1080,20 +1037,19 @@ theorem ensure_switch (a : Asm) (hu : a.unordered = false) (hw : WF a.cov) :
     · exact Or.inl (Or.inr ⟨Nat.zero_le _, h⟩)
     · exact Or.inr h
 
-theorem ensure_invX (s : Sys) (h : InvX s) (hw : WF s.a.cov) (ordered : Bool)
-    (hg : ordered = false → s.a.unordered = false → ∀ p ∈ s.a.cov, s.a.bytesRead ≤ p.1) :
+theorem ensure_invX (s : Sys) (h : InvX s) (hw : WF s.a.cov) (ordered : Bool) :
     InvX { s with a := (ensureOrdering s.a ordered).1 } := by
   cases ordered with
   | true => rw [ensure_true]; exact h
   | false =>
     cases hu : s.a.unordered with
     | true =>
-      have := (ensure_spec s.a false).2.2.2.2.2 hu
+      have := (ensure_spec s.a false hw).2.2.2.2.2.2.2 hu
       rw [this]; exact h
     | false =>
-      obtain ⟨e1, e2, e3, e4, e5, e6⟩ := ensure_spec s.a false
-      obtain ⟨s1, s2, s3⟩ := ensure_switch s.a hu hw
-      have hgood := hg rfl hu
+      obtain ⟨s1, s2, s3, s4⟩ := ensure_switch s.a hu hw
+      have hcov : ∀ x, mem x (ensureOrdering s.a false).1.cov → mem x s.a.cov ∧ s.a.bytesRead ≤ x := by
+        intro x hx; rw [s4] at hx; exact (clipFrom_mem _ _ x).mp hx
       refine ⟨h.px, ?_, fun _ => s2, ?_, ?_, ?_⟩
       · intro hc
         have : (ensureOrdering s.a false).1.unordered = false := hc
@@ -1102,30 +1058,16 @@ theorem ensure_invX (s : Sys) (h : InvX s) (hw : WF s.a.cov) (ordered : Bool)
         show mem x (ensureOrdering s.a false).1.recvd
         rw [s3 x]; exact Or.inl (h.ord hu x hx)
       · intro _ x hx
-        have hx' : mem x s.a.cov := by
-          have : mem x (ensureOrdering s.a false).1.cov := hx
-          rw [e2] at this; exact this
+        have hx' : mem x (ensureOrdering s.a false).1.cov := hx
         show mem x (ensureOrdering s.a false).1.recvd
-        rw [s3 x]; exact Or.inr hx'
+        rw [s3 x]; right; rw [← s4]; exact hx'
       · intro _ x hx hd
-        have hx' : mem x s.a.cov := by
-          have : mem x (ensureOrdering s.a false).1.cov := hx
-          rw [e2] at this; exact this
-        obtain ⟨p, hp, hp1, hp2⟩ := hx'
-        have := hgood p hp
+        have := (hcov x hx).2
         have := h.ord hu x hd
         omega
 
-theorem goodb_switch (s : Sys) (ordered : Bool)
-    (hg : (ordered || s.a.unordered || s.a.cov.all (fun p => decide (s.a.bytesRead ≤ p.1))) = true) :
-    ordered = false → s.a.unordered = false → ∀ p ∈ s.a.cov, s.a.bytesRead ≤ p.1 := by
-  intro h1 h2 p hp
-  rw [h1, h2] at hg
-  simp only [Bool.or_self, Bool.false_or, List.all_eq_true, decide_eq_true_eq] at hg
-  exact hg p hp
-
 theorem step_invX (g : Nat → Nat) (s s' : Sys) (op : Op) (ho : InvO g s) (h : InvX s)
-    (hop : op.consistent g) (hg : goodb s op = true) (hs : step s op = some s') : InvX s' := by
+    (hop : op.consistent g) (hs : step s op = some s') : InvX s' := by
   cases op with
   | insert off bytes alloc tm =>
     simp only [Op.consistent] at hop
@@ -1150,15 +1092,9 @@ theorem step_invX (g : Nat → Nat) (s s' : Sys) (op : Op) (ho : InvO g s) (h : 
                    rw [hu'] at this; cases this)
       | true =>
         by_cases hne : bytes = []
-        · -- empty frame next to received data: nothing changes
+        · -- empty frame: returns before `recvd` is touched
           subst hne
-          have hpred : ∃ p, pred s.a.recvd off = some p ∧ p.2 ≥ off := by
-            simp only [goodb, hu, Bool.not_true, Bool.false_or, List.isEmpty_nil] at hg
-            cases hp : pred s.a.recvd off with
-            | none => rw [hp] at hg; simp at hg
-            | some p => rw [hp] at hg; exact ⟨p, rfl, by simpa using hg⟩
-          obtain ⟨p, hp1, hp2⟩ := hpred
-          obtain ⟨v1, v2⟩ := insert_unordered_empty s.a off alloc tm hu (h.wfr hu) p hp1 hp2
+          obtain ⟨v1, v2, _⟩ := insert_empty_frame s.a off alloc tm
           refine ⟨h.px, ?_, ?_, ?_, ?_, ?_⟩
           · intro hc
             have : (insert s.a off [] alloc tm).1.unordered = false := hc
@@ -1198,12 +1134,11 @@ theorem step_invX (g : Nat → Nat) (s s' : Sys) (op : Op) (ho : InvO g s) (h : 
     · rename_i a' hins; cases hs; exact key a' _ (Or.inr hins)
     · cases hs
     · cases hs
-  | read max ordered obs c =>
+  | read max ordered obs =>
     simp only [step] at hs
-    have hgs := goodb_switch s ordered hg
-    have he := ensure_invX s h ho.wfc ordered hgs
+    have he := ensure_invX s h ho.wfc ordered
     have heo := ensure_invO g s ho ordered
-    obtain ⟨e1, e2, e3, e4, e5, e6⟩ := ensure_spec s.a ordered
+    obtain ⟨e1, e2, e3, e4, e5, e6, e7, e8⟩ := ensure_spec s.a ordered ho.wfc
     split at hs
     · rename_i a1 hens
       cases hs
@@ -1212,7 +1147,7 @@ theorem step_invX (g : Nat → Nat) (s s' : Sys) (op : Op) (ho : InvO g s) (h : 
     · rename_i a1 hens
       have ha1 : a1 = (ensureOrdering s.a ordered).1 := by rw [hens]
       have hb : (ensureOrdering s.a ordered).2 = true := by rw [hens]
-      have hmode := e4 hb
+      have hmode := e6 hb
       subst ha1
       cases ordered with
       | true =>
@@ -1220,18 +1155,12 @@ theorem step_invX (g : Nat → Nat) (s s' : Sys) (op : Op) (ho : InvO g s) (h : 
         split at hs
         · rename_i a2 hrd
           cases hs
-          have sp := read_ordered_spec g _ a2 max obs c .none hrd heo.cons
-          obtain ⟨d1, d2, d3, d4, d5, d6, d7, d8⟩ := sp
-          have hu2 : a2.unordered = false := by rw [d2]; exact hmode
-          refine ⟨he.px, ?_, ?_, ?_, ?_, ?_⟩
-          · intro _ x hx
-            show x < a2.bytesRead
-            rw [d4]; exact he.ord hmode x hx
-          all_goals (intro hc; have : a2.unordered = true := hc
-                     rw [hu2] at this; cases this)
+          have sp := read_ordered_spec g _ a2 max obs .none hrd heo.cons heo.wfc
+          obtain ⟨d1, d2, d3, d4, d5⟩ := sp
+          subst d4; exact he
         · rename_i a2 off bytes hrd
           cases hs
-          have sp := read_ordered_spec g _ a2 max obs c (.chunk off bytes) hrd heo.cons
+          have sp := read_ordered_spec g _ a2 max obs (.chunk off bytes) hrd heo.cons heo.wfc
           obtain ⟨d1, d2, d3, d4, d5, d6, d7, d8, d9, d10, d11⟩ := sp
           have hu2 : a2.unordered = false := by rw [d2]; exact hmode
           have hbr : ∀ x, mem x (delivered s) → x < (ensureOrdering s.a true).1.bytesRead := he.ord hmode
@@ -1257,12 +1186,12 @@ theorem step_invX (g : Nat → Nat) (s s' : Sys) (op : Op) (ho : InvO g s) (h : 
         split at hs
         · rename_i a2 hrd
           cases hs
-          have sp := read_unordered_spec g _ a2 max obs c .none hrd heo.cons
+          have sp := read_unordered_spec g _ a2 max obs .none hrd heo.cons
           obtain ⟨d1, d2, d3, d4, d5⟩ := sp
           subst d4; exact he
         · rename_i a2 off bytes hrd
           cases hs
-          have sp := read_unordered_spec g _ a2 max obs c (.chunk off bytes) hrd heo.cons
+          have sp := read_unordered_spec g _ a2 max obs (.chunk off bytes) hrd heo.cons
           obtain ⟨d1, d2, d3, d4, d5, d6, d7, d8⟩ := sp
           have hu2 : a2.unordered = true := by rw [d2]; exact hmode
           have hcov2 : ∀ x, mem x a2.cov → mem x (ensureOrdering s.a false).1.cov ∧ ¬ (off ≤ x ∧ x < off + bytes.length) := by
@@ -1295,7 +1224,7 @@ theorem step_invX (g : Nat → Nat) (s s' : Sys) (op : Op) (ho : InvO g s) (h : 
   | ensure ordered =>
     simp only [step] at hs
     cases hs
-    exact ensure_invX s h ho.wfc ordered (goodb_switch s ordered hg)
+    exact ensure_invX s h ho.wfc ordered
   | clear =>
     simp only [step] at hs
     cases hs
@@ -1303,66 +1232,402 @@ theorem step_invX (g : Nat → Nat) (s s' : Sys) (op : Op) (ho : InvO g s) (h : 
     · intro _ x hx; exact absurd hx (mem_nil x)
     · intro _ x hx; exact absurd hx (mem_nil x)
 
-theorem runG_inv (g : Nat → Nat) (ops : List Op) : ∀ (s s' : Sys), InvO g s → InvX s →
-    (∀ op ∈ ops, op.consistent g) → runG s ops = some s' → InvO g s' ∧ InvX s' := by
+theorem run_inv (g : Nat → Nat) (ops : List Op) : ∀ (s s' : Sys), InvO g s → InvX s →
+    (∀ op ∈ ops, op.consistent g) → run s ops = some s' → InvO g s' ∧ InvX s' := by
   induction ops with
-  | nil => intro s s' h1 h2 _ hr; simp only [runG] at hr; cases hr; exact ⟨h1, h2⟩
+  | nil => intro s s' h1 h2 _ hr; simp only [run] at hr; cases hr; exact ⟨h1, h2⟩
   | cons op ops ih =>
     intro s s' h1 h2 hc hr
-    simp only [runG] at hr
+    simp only [run] at hr
     split at hr
-    · rename_i hg
-      split at hr
-      · rename_i s1 hs
-        have hop := hc op List.mem_cons_self
-        exact ih s1 s' (step_invO g s s1 op h1 hop hs) (step_invX g s s1 op h1 h2 hop hg hs)
-          (fun o ho => hc o (List.mem_cons_of_mem _ ho)) hr
-      · cases hr
+    · rename_i s1 hs
+      have hop := hc op List.mem_cons_self
+      exact ih s1 s' (step_invO g s s1 op h1 hop hs) (step_invX g s s1 op h1 h2 hop hs)
+        (fun o ho => hc o (List.mem_cons_of_mem _ ho)) hr
     · cases hr
+
+/-! ### `bytes_read ≤ end`: the subtraction `self.end - self.bytes_read` in `insert` cannot underflow -/
+
+def lenSum (l : List (Nat × Nat)) : Nat := (l.map (fun r => r.2 - r.1)).sum
+
+def inR (r : Nat × Nat) (x : Nat) : Bool := decide (r.1 ≤ x) && decide (x < r.2)
+
+def inL (l : List (Nat × Nat)) (x : Nat) : Bool := l.any (fun r => inR r x)
+
+theorem count_range (r : Nat × Nat) (N : Nat) :
+    ((List.range N).filter (inR r)).length = Nat.min r.2 N - Nat.min r.1 N := by
+  induction N with
+  | zero => simp
+  | succ N ih =>
+    rw [List.range_succ, List.filter_append, List.length_append, ih]
+    simp only [List.filter_cons, List.filter_nil, inR]
+    by_cases h1 : r.1 ≤ N <;> by_cases h2 : N < r.2 <;>
+      simp [h1, h2, Nat.min_def] <;> (repeat' split) <;> omega
+
+theorem filter_or_length (l : List Nat) (p q : Nat → Bool) (h : ∀ x ∈ l, ¬ (p x = true ∧ q x = true)) :
+    (l.filter (fun x => p x || q x)).length = (l.filter p).length + (l.filter q).length := by
+  induction l with
+  | nil => rfl
+  | cons a t ih =>
+    have ha := h a List.mem_cons_self
+    have iht := ih (fun x hx => h x (List.mem_cons_of_mem _ hx))
+    simp only [List.filter_cons]
+    cases hp : p a <;> cases hq : q a <;> simp [iht] <;> first | omega | (exfalso; exact ha ⟨hp, hq⟩)
+
+/-- pairwise disjoint ranges inside `[0, N)` have total length at most `N` -/
+theorem lenSum_le (l : List (Nat × Nat)) (N : Nat) (hd : l.Pairwise disj)
+    (hb : ∀ r ∈ l, r.1 < r.2 → r.2 ≤ N) : lenSum l ≤ N := by
+  have key : lenSum l = ((List.range N).filter (inL l)).length := by
+    induction l with
+    | nil =>
+      have : (List.range N).filter (inL []) = [] := by
+        apply List.filter_eq_nil_iff.mpr
+        intro x _; simp [inL]
+      rw [this]; rfl
+    | cons r t ih =>
+      have hdt := (List.pairwise_cons.mp hd).2
+      have hdr := (List.pairwise_cons.mp hd).1
+      have iht := ih hdt (fun q hq => hb q (List.mem_cons_of_mem _ hq))
+      have hfun : (fun x => inL (r :: t) x) = (fun x => inR r x || inL t x) := by
+        funext x; simp [inL]
+      have hcount := count_range r N
+      have hr := hb r List.mem_cons_self
+      have hlen : ((List.range N).filter (inR r)).length = r.2 - r.1 := by
+        rw [hcount]; simp only [Nat.min_def]; (repeat' split) <;> omega
+      show lenSum (r :: t) = ((List.range N).filter (fun x => inL (r :: t) x)).length
+      rw [hfun, filter_or_length _ _ _ ?_, hlen, ← iht]
+      · simp [lenSum]
+      · intro x _ hx
+        simp only [inR, inL, Bool.and_eq_true, decide_eq_true_eq, List.any_eq_true] at hx
+        obtain ⟨⟨h1, h2⟩, q, hq, h3, h4⟩ := hx
+        exact hdr q hq x ⟨h1, h2, h3, h4⟩
+  rw [key]
+  have := List.length_filter_le (inL l) (List.range N)
+  simpa using this
+
+theorem insert_end (s : Asm) (off : Nat) (bytes : Bytes) (alloc : Nat) (tm : Bool) :
+    s.end_ ≤ (insert s off bytes alloc tm).1.end_ ∧
+    ((insert s off bytes alloc tm).2 = .ok ∨ (insert s off bytes alloc tm).2 = .tooMany →
+      off + bytes.length ≤ (insert s off bytes alloc tm).1.end_) := by
+  have hmax : s.end_ ≤ Nat.max s.end_ (off + bytes.length) ∧ off + bytes.length ≤ Nat.max s.end_ (off + bytes.length) := by
+    simp only [Nat.max_def]; split <;> omega
+  have hfin : ∀ (a : Asm) (o : Nat) (b : Bytes), (finishInsert a o b tm).1.end_ = a.end_ := by
+    intro a o b; unfold finishInsert; split
+    · rfl
+    · split
+      · rfl
+      · split <;> rfl
+  have hdup : ∀ (dups : List (Nat × Nat)) (a : Asm) (o : Nat) (b : Bytes) (a' : Asm) (o' : Nat) (b' : Bytes),
+      dupLoop dups a o b = some (a', o', b') → a'.end_ = a.end_ := by
+    intro dups
+    induction dups with
+    | nil => intro a o b a' o' b' h; simp only [dupLoop, Option.some.injEq, Prod.mk.injEq] at h; rw [← h.1]
+    | cons d t ih =>
+      obtain ⟨ds, de⟩ := d
+      intro a o b a' o' b' h
+      unfold dupLoop at h
+      split at h
+      · split at h
+        · cases h
+        · split at h
+          · cases h
+          · split at h
+            · cases h
+            · have := ih _ _ _ _ _ _ h; exact this
+      · split at h
+        · cases h
+        · split at h
+          · cases h
+          · exact ih _ _ _ _ _ _ h
+  unfold insert
+  split
+  · exact ⟨Nat.le_refl _, by intro h; rcases h with h | h <;> cases h⟩
+  · split
+    · exact ⟨Nat.le_refl _, by intro h; rcases h with h | h <;> cases h⟩
+    · split
+      · exact ⟨hmax.1, fun _ => hmax.2⟩
+      · split
+        · split
+          · exact ⟨Nat.le_refl _, by intro h; rcases h with h | h <;> cases h⟩
+          · rename_i s1 off1 bytes1 hd
+            have := hdup _ _ _ _ _ _ _ hd
+            rw [hfin, this]
+            exact ⟨hmax.1, fun _ => hmax.2⟩
+        · split
+          · split
+            · exact ⟨hmax.1, fun _ => hmax.2⟩
+            · rw [hfin]; exact ⟨hmax.1, fun _ => hmax.2⟩
+          · rw [hfin]; exact ⟨hmax.1, fun _ => hmax.2⟩
+
+theorem read_end (a : Asm) (max : Nat) (ordered : Bool) (obs : Obs) : (read a max ordered obs).1.end_ = a.end_ := by
+  unfold read
+  cases obs with
+  | none => cases ordered <;> simp <;> split <;> rfl
+  | chunk off len =>
+    simp only
+    split
+    · rfl
+    · split
+      · rfl
+      · cases ordered
+        · rfl
+        · simp only [if_true]; split <;> rfl
+
+theorem ensure_end (a : Asm) (ordered : Bool) : (ensureOrdering a ordered).1.end_ = a.end_ := by
+  unfold ensureOrdering
+  cases ordered <;> cases a.unordered <;> simp
+
+structure InvB (s : Sys) : Prop where
+  sumEq : s.a.bytesRead = lenSum (delivered s)
+  covB : ∀ x, mem x s.a.cov → x < s.a.end_
+  delB : ∀ r ∈ delivered s, r.1 < r.2 → r.2 ≤ s.a.end_
+
+theorem invB_init : InvB Sys.init :=
+  ⟨rfl, (by intro x hx; exact absurd hx (mem_nil x)), (by intro r hr; simp [delivered, Sys.init] at hr)⟩
+
+theorem step_invB (g : Nat → Nat) (s s' : Sys) (op : Op) (ho : InvO g s) (hx : InvX s) (h : InvB s)
+    (hop : op.consistent g) (hs : step s op = some s') : InvB s' := by
+  cases op with
+  | insert off bytes alloc tm =>
+    simp only [Op.consistent] at hop
+    have hi := insert_inv g s.a off bytes alloc tm ho.cons ho.wfc hop
+    have hend := insert_end s.a off bytes alloc tm
+    simp only [step] at hs
+    have key : ∀ a' (insl : List (Nat × Nat)), (insert s.a off bytes alloc tm) = (a', InsertOut.ok) ∨
+        (insert s.a off bytes alloc tm) = (a', InsertOut.tooMany) →
+        InvB { s with a := a', ins := insl } := by
+      intro a' insl hins
+      have ea : a' = (insert s.a off bytes alloc tm).1 := by rcases hins with e | e <;> rw [e]
+      have hok : (insert s.a off bytes alloc tm).2 = .ok ∨ (insert s.a off bytes alloc tm).2 = .tooMany := by
+        rcases hins with e | e <;> rw [e] <;> simp
+      subst ea
+      have he2 := hend.2 hok
+      refine ⟨?_, ?_, ?_⟩
+      · show (insert s.a off bytes alloc tm).1.bytesRead = lenSum (delivered s)
+        rw [hi.2.2.2]; exact h.sumEq
+      · intro x hxm
+        have hxm' : mem x (insert s.a off bytes alloc tm).1.cov := hxm
+        show x < (insert s.a off bytes alloc tm).1.end_
+        cases hu : s.a.unordered with
+        | false =>
+          rcases (insert_ordered_cov g s.a off bytes alloc tm ho.cons ho.wfc hop hu hok x).mp hxm' with h1 | h1
+          · have := h.covB x h1; omega
+          · omega
+        | true =>
+          by_cases hne : bytes = []
+          · subst hne
+            rw [(insert_empty_frame s.a off alloc tm).2.1] at hxm'
+            have := h.covB x hxm'; omega
+          · obtain ⟨_, _, u3⟩ := insert_unordered_spec g s.a off bytes alloc tm hu (hx.wfr hu) ho.wfc hne
+              ho.cons hop hok
+            rcases (u3 x).mp hxm' with h1 | h1
+            · have := h.covB x h1; omega
+            · omega
+      · intro r hr hlt
+        have := h.delB r hr hlt
+        show r.2 ≤ (insert s.a off bytes alloc tm).1.end_
+        omega
+    split at hs
+    · rename_i a' hins; cases hs; exact key a' _ (Or.inl hins)
+    · rename_i a' hins; cases hs; exact key a' _ (Or.inr hins)
+    · cases hs
+    · cases hs
+  | read max ordered obs =>
+    simp only [step] at hs
+    have heo := ensure_invO g s ho ordered
+    obtain ⟨e1, e2, e3, e4, e5, e6, e7, e8⟩ := ensure_spec s.a ordered ho.wfc
+    have hee := ensure_end s.a ordered
+    have hbase : InvB { s with a := (ensureOrdering s.a ordered).1 } := by
+      refine ⟨?_, ?_, ?_⟩
+      · show (ensureOrdering s.a ordered).1.bytesRead = lenSum (delivered s); rw [e5]; exact h.sumEq
+      · intro x hxm
+        show x < (ensureOrdering s.a ordered).1.end_
+        rw [hee]; exact h.covB x (e3 x hxm)
+      · intro r hr hlt
+        show r.2 ≤ (ensureOrdering s.a ordered).1.end_
+        rw [hee]; exact h.delB r hr hlt
+    split at hs
+    · rename_i a1 hens
+      cases hs
+      have : a1 = (ensureOrdering s.a ordered).1 := by rw [hens]
+      subst this; exact hbase
+    · rename_i a1 hens
+      have ha1 : a1 = (ensureOrdering s.a ordered).1 := by rw [hens]
+      subst ha1
+      have hre := read_end (ensureOrdering s.a ordered).1 max ordered obs
+      -- a returned chunk lies in the buffered coverage, the coverage only shrinks
+      have hchunk : ∀ a2 off bytes, read (ensureOrdering s.a ordered).1 max ordered obs = (a2, .chunk off bytes) →
+          a2.bytesRead = (ensureOrdering s.a ordered).1.bytesRead + bytes.length ∧
+          (∀ x, off ≤ x → x < off + bytes.length → mem x (ensureOrdering s.a ordered).1.cov) ∧
+          (∀ x, mem x a2.cov → mem x (ensureOrdering s.a ordered).1.cov) := by
+        intro a2 off bytes hrd
+        cases ordered with
+        | true =>
+          have sp := read_ordered_spec g _ a2 max obs (.chunk off bytes) hrd heo.cons heo.wfc
+          obtain ⟨_, _, _, _, d5, _, _, d8, _, _, d11⟩ := sp
+          exact ⟨d5, d8, d11⟩
+        | false =>
+          have sp := read_unordered_spec g _ a2 max obs (.chunk off bytes) hrd heo.cons
+          obtain ⟨_, _, _, d4, _, _, d7, d8⟩ := sp
+          refine ⟨d4, d7, ?_⟩
+          intro x hxm; rw [d8] at hxm; exact ((removeRange_mem _ _ _ x).mp hxm).1
+      have hnone : ∀ a2, read (ensureOrdering s.a ordered).1 max ordered obs = (a2, .none) →
+          a2 = (ensureOrdering s.a ordered).1 := by
+        intro a2 hrd
+        cases ordered with
+        | true => exact (read_ordered_spec g _ a2 max obs .none hrd heo.cons heo.wfc).2.2.2.1
+        | false => exact (read_unordered_spec g _ a2 max obs .none hrd heo.cons).2.2.2.1
+      split at hs
+      · rename_i a2 hrd
+        cases hs
+        rw [hnone a2 hrd]; exact hbase
+      · rename_i a2 off bytes hrd
+        cases hs
+        obtain ⟨c1, c2, c3⟩ := hchunk a2 off bytes hrd
+        have hend2 : a2.end_ = s.a.end_ := by
+          have : (read (ensureOrdering s.a ordered).1 max ordered obs).1.end_ = _ := hre
+          rw [hrd] at this; rw [this, hee]
+        refine ⟨?_, ?_, ?_⟩
+        · show a2.bytesRead = lenSum (rangeOf (ordered, off, bytes) :: delivered s)
+          rw [c1]
+          have := hbase.sumEq
+          have hb' : (ensureOrdering s.a ordered).1.bytesRead = lenSum (delivered s) := this
+          rw [hb']
+          simp [lenSum, rangeOf]; omega
+        · intro x hxm
+          show x < a2.end_
+          rw [hend2]
+          have := hbase.covB x (c3 x hxm)
+          have hq : x < (ensureOrdering s.a ordered).1.end_ := this
+          rw [hee] at hq; exact hq
+        · intro r hr hlt
+          show r.2 ≤ a2.end_
+          rw [hend2]
+          have hr' : r ∈ rangeOf (ordered, off, bytes) :: delivered s := hr
+          rcases List.mem_cons.mp hr' with e | e
+          · subst e
+            simp only [rangeOf] at hlt ⊢
+            have hm := c2 (off + bytes.length - 1) (by omega) (by omega)
+            have := hbase.covB _ hm
+            have hq : off + bytes.length - 1 < (ensureOrdering s.a ordered).1.end_ := this
+            rw [hee] at hq; omega
+          · exact h.delB r e hlt
+      · cases hs
+  | ensure ordered =>
+    simp only [step] at hs
+    cases hs
+    obtain ⟨e1, e2, e3, e4, e5, e6, e7, e8⟩ := ensure_spec s.a ordered ho.wfc
+    have hee := ensure_end s.a ordered
+    refine ⟨?_, ?_, ?_⟩
+    · show (ensureOrdering s.a ordered).1.bytesRead = lenSum (delivered s); rw [e5]; exact h.sumEq
+    · intro x hxm
+      show x < (ensureOrdering s.a ordered).1.end_
+      rw [hee]; exact h.covB x (e3 x hxm)
+    · intro r hr hlt
+      show r.2 ≤ (ensureOrdering s.a ordered).1.end_
+      rw [hee]; exact h.delB r hr hlt
+  | clear =>
+    simp only [step] at hs
+    cases hs
+    exact ⟨h.sumEq, (by intro x hxm; exact absurd hxm (mem_nil x)), h.delB⟩
+
+theorem run_invB (g : Nat → Nat) (ops : List Op) : ∀ (s s' : Sys), InvO g s → InvX s → InvB s →
+    (∀ op ∈ ops, op.consistent g) → run s ops = some s' → InvB s' ∧ InvX s' := by
+  induction ops with
+  | nil => intro s s' _ h2 h3 _ hr; simp only [run] at hr; cases hr; exact ⟨h3, h2⟩
+  | cons op ops ih =>
+    intro s s' h1 h2 h3 hc hr
+    simp only [run] at hr
+    split at hr
+    · rename_i s1 hs
+      have hop := hc op List.mem_cons_self
+      exact ih s1 s' (step_invO g s s1 op h1 hop hs) (step_invX g s s1 op h1 h2 hop hs)
+        (step_invB g s s1 op h1 h2 h3 hop hs) (fun o ho => hc o (List.mem_cons_of_mem _ ho)) hr
+    · cases hr
+
+/-- the number of bytes handed to the application never exceeds the highest offset received -/
+theorem bytesRead_le_end (g : Nat → Nat) (ops : List Op) (s : Sys) (hc : ∀ op ∈ ops, op.consistent g)
+    (h : run Sys.init ops = some s) : s.a.bytesRead ≤ s.a.end_ := by
+  obtain ⟨hb, hx⟩ := run_invB g ops _ _ (invO_init g) invX_init invB_init hc h
+  rw [hb.sumEq]
+  exact lenSum_le _ _ hx.px hb.delB
+
+theorem finishInsert_no_panic (a : Asm) (off : Nat) (bytes : Bytes) (tm : Bool) (h : a.bytesRead ≤ a.end_) :
+    (finishInsert a off bytes tm).2 ≠ .panic := by
+  unfold finishInsert
+  split
+  · split <;> simp
+  · rw [if_neg (by omega)]
+    split
+    · split <;> simp
+    · simp
+
+/-- `insert` of a frame with `len ≤ allocation_size` and `offset + len < 2^64` never panics -/
+theorem insert_no_panic (g : Nat → Nat) (s : Sys) (ho : InvO g s) (hx : InvX s) (hle : s.a.bytesRead ≤ s.a.end_)
+    (off : Nat) (bytes : Bytes) (alloc : Nat) (tm : Bool) (hb : bytes = stream g off bytes.length)
+    (h1 : bytes.length ≤ alloc) (h2 : off + bytes.length < 2^64) :
+    (insert s.a off bytes alloc tm).2 ≠ .panic := by
+  have hmax : s.a.end_ ≤ Nat.max s.a.end_ (off + bytes.length) := by
+    simp only [Nat.max_def]; split <;> omega
+  unfold insert
+  rw [if_neg (by omega), if_neg (by omega)]
+  split
+  · split <;> simp
+  · rename_i hne
+    split
+    · rename_i hu
+      have hne' : bytes ≠ [] := by intro e; rw [e] at hne; simp at hne
+      have hlen : 0 < bytes.length := by
+        cases bytes with
+        | nil => exact absurd rfl hne'
+        | cons _ _ => simp
+      have hd := replace_dups s.a.recvd off (off + bytes.length) (hx.wfr hu) (by omega)
+      obtain ⟨a1, off1, bytes1, e1, _⟩ :=
+        dupLoop_cov s.a.recvd (RangeSet.replace s.a.recvd off (off + bytes.length)).1
+          { s.a with end_ := Nat.max s.a.end_ (off + bytes.length),
+                     recvd := (RangeSet.replace s.a.recvd off (off + bytes.length)).2 }
+          off (off + bytes.length) bytes hd (by omega) (by omega) ho.wfc
+      rw [e1]
+      simp only
+      have hinv := dupLoop_inv g _ _ off bytes a1 off1 bytes1 (by exact ho.cons) (by exact ho.wfc) hb e1
+      apply finishInsert_no_panic
+      rw [hinv.2.2.2.2.1, hinv.2.2.2.2.2.2]
+      exact Nat.le_trans hle hmax
+    · split
+      · split
+        · split <;> simp
+        · exact finishInsert_no_panic _ _ _ _ (Nat.le_trans hle hmax)
+      · exact finishInsert_no_panic _ _ _ _ (Nat.le_trans hle hmax)
 
 /-! ### ordered read after an unordered one -/
 
-theorem illegal_ordered (s : Sys) (hu : s.a.unordered = true) (max : Nat) (obs : Obs) (c : RS) :
-    (ensureOrdering s.a true).2 = false ∧ step s (.read max true obs c) = some s := by
+theorem illegal_ordered (s : Sys) (hu : s.a.unordered = true) (max : Nat) (obs : Obs) :
+    (ensureOrdering s.a true).2 = false ∧ step s (.read max true obs) = some s := by
   have h1 : ensureOrdering s.a true = (s.a, false) := by
     unfold ensureOrdering; simp [hu]
   refine ⟨by rw [h1], ?_⟩
   simp only [step, h1]
 
-/-! ### witnesses of the two defects (same op lists as corpus/asm/A1-*.ops, A2-*.ops) -/
+/-! ### regression: the call sequences that used to re-deliver data (corpus/asm/A1-*.ops, A2-*.ops) -/
 
-/-- ground stream of the witnesses: byte at offset `o` is `o` -/
+/-- ground stream of the examples: byte at offset `o` is `o` -/
 def gId : Nat → Nat := fun o => o
 
-/-- A1: `0..10` and the overlapping `2..6` arrive, an ordered read returns `0..10` (the chunk `2..6`
-    stays in the heap), then the application switches to unordered reads -/
-def witnessA1 : List Op :=
+/-- formerly A1: `0..10` and the overlapping `2..6` arrive, an ordered read returns `0..10` (the chunk
+    `2..6` stays in the heap), then the application switches to unordered reads: nothing is left -/
+def formerA1 : List Op :=
   [.insert 0 (stream gId 0 10) 10 false, .insert 2 (stream gId 2 4) 4 false,
-   .read 100 true (.chunk 0 10) [(2, 6)], .read 100 false (.chunk 2 4) []]
+   .read 100 true (.chunk 0 10), .read 100 false .none]
 
-/-- A2: unordered mode; an empty frame at 20, data `25..30` (read), then the re-framed `15..30` -/
-def witnessA2 : List Op :=
+/-- formerly A2: unordered mode; an empty frame at 20, data `25..30` (read), then the re-framed
+    `15..30`: only `15..25` is new -/
+def formerA2 : List Op :=
   [.ensure false, .insert 20 [] 0 false, .insert 25 (stream gId 25 5) 5 false,
-   .read 100 false (.chunk 25 5) [], .insert 15 (stream gId 15 15) 15 false,
-   .read 100 false (.chunk 15 15) []]
+   .read 100 false (.chunk 25 5), .insert 15 (stream gId 15 15) 15 false,
+   .read 100 false (.chunk 15 10), .read 100 false .none]
 
-theorem witnessA1_consistent : ∀ op ∈ witnessA1, op.consistent gId := by
-  intro op hop
-  simp only [witnessA1, List.mem_cons, List.mem_nil_iff, or_false] at hop
-  rcases hop with h | h | h | h <;> subst h <;> simp [Op.consistent, stream_length]
+theorem formerA1_delivered : (run Sys.init formerA1).map delivered = some [(0, 10)] := by decide
 
-theorem witnessA2_consistent : ∀ op ∈ witnessA2, op.consistent gId := by
-  intro op hop
-  simp only [witnessA2, List.mem_cons, List.mem_nil_iff, or_false] at hop
-  rcases hop with h | h | h | h | h | h <;> subst h <;> simp [Op.consistent, stream_length, stream]
-
-theorem witnessA1_delivered : (run Sys.init witnessA1).map delivered = some [(2, 6), (0, 10)] := by decide
-
-theorem witnessA2_delivered : (run Sys.init witnessA2).map delivered = some [(15, 30), (25, 30)] := by decide
-
-theorem not_pairwise_of_overlap (r q : Nat × Nat) (l : List (Nat × Nat)) (x : Nat)
-    (h : r.1 ≤ x ∧ x < r.2 ∧ q.1 ≤ x ∧ x < q.2) : ¬ (r :: q :: l).Pairwise disj := by
-  intro hp
-  exact (List.pairwise_cons.mp hp).1 q List.mem_cons_self x h
+theorem formerA2_delivered : (run Sys.init formerA2).map delivered = some [(15, 25), (25, 30)] := by decide
 
 end QM.Assembler
